@@ -1,4 +1,9 @@
 /- C14: each checksum algorithm computes its published definition on every byte string. -/
+import FinProto.Obl.SCks
 import FinProto.Props.ChecksumProofs
 namespace FinProto.Obl
+open FinProto
+/-- the services' Calc bodies, template-translated from the current source, are the pinned ones (or unrecognised) -/
+theorem C14_calc_bodies : cksAgree Gen.cksDefs pinnedCksDefs = true := gen_cks_agree
+
 end FinProto.Obl
